@@ -11,7 +11,7 @@ git -C /repo worktree add -q --detach $mut HEAD || exit 2
 # patch-head.diff = the same change ported by hand to the current HEAD (when later hook commits touch the patched lines)
 pf=/verif/seeded/$name/patch.diff
 [ -f /verif/seeded/$name/patch-head.diff ] && pf=/verif/seeded/$name/patch-head.diff
-git -C $mut apply $pf 2>/dev/null || git -C $mut apply -3 $pf 2>/dev/null || { echo "PATCH DOES NOT APPLY TO HEAD"; git -C /repo worktree remove --force $mut; exit 2; }
+git -C $mut apply $pf 2>/dev/null || git -C $mut apply -3 $pf 2>/dev/null || { echo "$name: PATCH DOES NOT APPLY TO HEAD" | tee -a /tmp/seed-noapply.log; git -C /repo worktree remove --force $mut; exit 2; }
 results=""
 for p in $props; do
   out=$(VERIF_REPO=$mut ./check $p --tier quick 2>&1 | grep -E "^(VIOLATION|OK)" | tail -1)
